@@ -50,10 +50,14 @@ class Launch:
             job = GenericCommandParameters(
                 name=s["name"], command=s["command"], append_job_name=s["append_job_name"],
                 append_output_dir=s["append_output_dir"], job_id=i + 1)
-            # JADE's pydantic models normalise strings (strip); the check only uses normal forms
-            if job.name != s["name"] or job.command != s["command"]:
-                raise ValueError("launch driver: job fields were normalised by JADE: %r -> %r / %r -> %r"
-                                 % (s["name"], job.name, s["command"], job.command))
+            # JADE's pydantic models normalise strings (strip); the check only uses normal forms.  A name that
+            # changes would break the driver's bookkeeping; a command that JADE stores differently from what was
+            # configured is NOT a harness error: the oracles compare the started process with the CONFIGURED
+            # command, so a harmful rewrite shows up there with this job as the failing input.
+            if job.name != s["name"]:
+                raise ValueError("launch driver: job name was normalised by JADE: %r -> %r" % (s["name"], job.name))
+            if job.command != s["command"]:
+                self.rewritten = getattr(self, "rewritten", []) + [(s["name"], s["command"], job.command)]
             config.add_job(job)
         hpc = {"account": "acct"} if hpc_type == "slurm" else {}
         hpcc = HpcConfig(hpc_type=hpc_type, hpc=hpc)
